@@ -151,14 +151,55 @@ def include_errors(ctx, L):
             'definitions silently dropped', s)
 
 
+include_scope_ok = {}
+
+
 def symbol_propagation(ctx, L):
     pp = ctx.py.mod('prophyc.parsers.prophy').func('Parser.p_include_def')
     s = ws(unparse(pp.node))
-    L.check(inn('if isinstance(node, (model.Typedef, model.Enum, model.Struct, model.Union)): self.typedecls[node.name] = node', s),
+    from . import shared_py as P
+    loops = [n for n in pp.node.body if isinstance(n, ast.For) and ws(unparse(n.iter)) == 'nodes' and isinstance(n.target, ast.Name)]
+    if len(loops) != 1:
+        raise AnalysisError('p_include_def: loop over the included nodes not found')
+    v = loops[0].target.id
+    PRM = ['self', 't', v]
+
+    def under(stmt, cls_guard):
+        """stmt runs exactly for the nodes of `cls_guard` (a further `not isinstance(node, model.Constant)` excludes nothing: the
+        node classes are disjoint)"""
+        got = set((P._sem(t_, PRM, {}, P.ALL_GLOBALS), pol) for t_, pol, how in path_conditions(pp.module, pp, stmt))
+        want = P.expected_facts(cls_guard.replace('node', v), True, PRM, pp.module)
+        extra = P.expected_facts('isinstance(%s, model.Constant)' % v, False, PRM, pp.module) if 'model.Constant' not in cls_guard else set()
+        return want <= got <= want | extra
+
+    def stores(table, key, val):
+        out = []
+        for n in ast.walk(loops[0]):
+            if isinstance(n, ast.Assign) and ws(unparse(n.targets[0])) == 'self.%s[%s]' % (table, key) and ws(unparse(n.value)) == val:
+                out.append(n)
+        return out
+    ty = stores('typedecls', v + '.name', v)
+    L.check(len(ty) == 1 and under(ty[0], 'isinstance(node, (model.Typedef, model.Enum, model.Struct, model.Union))'),
             'C16d.symbol-propagation', 'p_include_def|types', pp.site(), 'every type-defining node class of an included file enters the scope', '')
-    L.check(inn('if isinstance(node, model.Constant): self.constdecls[node.name] = node', s) and inn('for mem in node.members: self.constdecls[mem.name] = mem', s),
-            'C16d.symbol-propagation', 'p_include_def|constants', pp.site(), 'constants and enumerators of an included file enter the scope', '')
-    L.check(inn('node = model.Include(stem, nodes) self.nodes.append(node)', s) and inn("stem = os.path.splitext(os.path.basename(path))[0]", s),
+    cs = stores('constdecls', v + '.name', v)
+    ok_c = len(cs) == 1 and under(cs[0], 'isinstance(node, model.Constant)')
+    ok_e = False
+    for n in ast.walk(loops[0]):
+        if isinstance(n, ast.For) and n is not loops[0] and ws(unparse(n.iter)) == v + '.members' and isinstance(n.target, ast.Name) \
+                and [ws(unparse(b)) for b in n.body] == ['self.constdecls[%s.name] = %s' % (n.target.id, n.target.id)] and under(n, 'isinstance(node, model.Enum)'):
+            ok_e = True
+        if isinstance(n, ast.Expr) and isinstance(n.value, ast.Call) and ws(unparse(n.value.func)) == 'self.constdecls.update' and len(n.value.args) == 1 \
+                and isinstance(n.value.args[0], (ast.GeneratorExp, ast.ListComp)) and under(n, 'isinstance(node, model.Enum)'):
+            g = n.value.args[0]
+            if len(g.generators) == 1 and not g.generators[0].ifs and ws(unparse(g.generators[0].iter)) == v + '.members' \
+                    and isinstance(g.generators[0].target, ast.Name) \
+                    and ws(unparse(g.elt)) == '(%s.name, %s)' % (g.generators[0].target.id, g.generators[0].target.id):
+                ok_e = True
+    include_scope_ok['constants'] = ok_c and ok_e
+    L.check(ok_c and ok_e, 'C16d.symbol-propagation', 'p_include_def|constants', pp.site(),
+            'constants and enumerators of an included file enter the scope', '')
+    L.check(inn('self.nodes.append(model.Include(os.path.splitext(os.path.basename(t[3][1:-1]))[0], nodes))', s) or
+            (inn('node = model.Include(stem, nodes) self.nodes.append(node)', s) and inn("stem = os.path.splitext(os.path.basename(path))[0]", s)),
             'C16d.symbol-propagation', 'p_include_def|node', pp.site(), 'the include is recorded by its stem with the nodes of the included file', '')
     # name-defining node classes of model.py = what p_include_def registers
     model = ctx.py.mod('prophyc.model')
